@@ -1185,7 +1185,7 @@ func modelSlicesEqual(e *Engine, fr *Frame, st *State, fn *ssa.Function, args []
 // sort.*: the elements of the slice argument are permuted in place; nothing else changes.
 // (That the result is sorted, and a permutation, is not modelled.)
 func modelSortInPlace(e *Engine, fr *Frame, st *State, fn *ssa.Function, args []Val, pos token.Pos) Val {
-	e.trust("sort/slices sorting functions only permute the elements of their slice argument (sortedness itself is not modelled)")
+	e.trust("sort/slices sorting functions only rearrange the elements of their slice argument")
 	call := findCall(fr, fn, pos)
 	if call == nil {
 		e.unsupported("sort: call site not found")
@@ -1220,6 +1220,46 @@ func modelSortInPlace(e *Engine, fr *Frame, st *State, fn *ssa.Function, args []
 	arr := e.fresh(arraySort(sInt, e.sortOf(et)), "sorted")
 	e.assume(st, T{fmt.Sprintf("(forall ((i Int)) (! (=> (not (and (<= (soff %s) i) (< i (+ (soff %s) (slen %s))))) (= (select %s i) (select (select %s (sbase %s)) i))) :pattern ((select %s i))))", s.S, s.S, s.S, arr.S, h.S, s.S, arr.S), sBool})
 	e.recStore(st, hn, T{"(sbase " + s.S + ")", sRef})
+	pre := st.clone()
 	e.setHeap(st, hn, tStore(h, T{"(sbase " + s.S + ")", sRef}, arr))
+	// the result is a rearrangement: every new element is an old one and the other way round
+	e.assume(st, e.quantInt(st, "forall", func(qs *State, i T) T {
+		ni := e.elemAt(st, s, i, et)
+		return tImp(inRange(i, s), e.quantInt(qs, "exists", func(_ *State, j T) T {
+			return tAnd(inRange(j, s), tEq(e.elemAt(pre, s, j, et), ni))
+		}))
+	}))
+	e.assume(st, e.quantInt(st, "forall", func(qs *State, j T) T {
+		oj := e.elemAt(pre, s, j, et)
+		return tImp(inRange(j, s), e.quantInt(qs, "exists", func(_ *State, i T) T {
+			return tAnd(inRange(i, s), tEq(e.elemAt(st, s, i, et), oj))
+		}))
+	}))
+	// and it is ordered: by the comparison function given, or by the natural order
+	name := ""
+	if fn.Pkg != nil {
+		name = fn.Pkg.Pkg.Path() + "." + fn.Name()
+	}
+	switch {
+	case (name == "sort.Slice" || name == "sort.SliceStable") && len(args) == 2:
+		sig := fn.Signature.Params().At(1).Type().Underlying().(*types.Signature)
+		e.trust("sort.Slice/SliceStable leave the slice ordered by the given less function (no element j > i with less(j, i))")
+		e.assume(st, e.quantInt(st, "forall", func(qs *State, i T) T {
+			return e.quantInt(qs, "forall", func(q2 *State, j T) T {
+				lt, ok := e.callValue(fr, q2, args[1], []Val{j, i}, sig, pos).(T)
+				if !ok {
+					return tTrue
+				}
+				return tImp(T{fmt.Sprintf("(and (<= 0 %s) (< %s %s) (< %s (slen %s)))", i.S, i.S, j.S, j.S, s.S), sBool}, tNot(lt))
+			})
+		}))
+	case name == "sort.Strings" || (strings.HasPrefix(name, "slices.Sort") && e.sortOf(et) == sStr && len(args) == 1):
+		e.trust("sort.Strings/slices.Sort leave a string slice in non-decreasing order")
+		e.assume(st, e.quantInt(st, "forall", func(qs *State, i T) T {
+			return e.quantInt(qs, "forall", func(_ *State, j T) T {
+				return tImp(T{fmt.Sprintf("(and (<= 0 %s) (< %s %s) (< %s (slen %s)))", i.S, i.S, j.S, j.S, s.S), sBool}, tNot(strLt(e.elemAt(st, s, j, et), e.elemAt(st, s, i, et))))
+			})
+		}))
+	}
 	return Tuple{}
 }
